@@ -147,6 +147,8 @@ def git_index(req):
             return {"giterr": r.stderr.decode("latin1")[:200]}
         for n in req.get("skip", []):
             _git(["update-index", "--skip-worktree", "--", os.fsdecode(R(n))], d)
+        # what git itself marked (it refuses paths that a directory/file conflict replaced, and unmerged ones)
+        marked = sorted(hx(rec[2:]) for rec in _git(["ls-files", "-t", "-z"], d).stdout.split(b"\0") if rec[:2] in (b"S ", b"s "))
         listed = _git(["ls-files", "--stage", "-z"], d).stdout
         want = []
         for rec in listed.split(b"\0"):
@@ -164,7 +166,7 @@ def git_index(req):
             skipped = sorted(hx(k) for k, v in idx.items() if isinstance(v, I.IndexEntry) and v.extended_flags & 0x4000)
         except Exception as ex:
             return {"exc": type(ex).__name__ + ":" + str(ex)[:100], "file": hx(data)[:4000], "want": ",".join(want)}
-        return {"got": ",".join(got) or "_", "want": ",".join(want) or "_", "file": hx(data), "skipped": skipped}
+        return {"got": ",".join(got) or "_", "want": ",".join(want) or "_", "file": hx(data), "skipped": skipped, "git_skipped": marked}
     finally:
         shutil.rmtree(d, ignore_errors=True)
 
